@@ -2,6 +2,7 @@ package main
 
 import (
 	"fmt"
+	"go/ast"
 	"go/token"
 	"go/types"
 	"sort"
@@ -19,7 +20,7 @@ func init() {
 			" No err.Error() is applied to an error that already carries a position (no re-positioning at another node); on every path to the `unexpected character` error exactly one byte has been consumed since the token start, so cursor-1 is that byte." +
 			" GetLineAndCol compares the position with every byte offset of the text (not with rune starts)." +
 			" A lexical error is positioned at the token's first byte or the byte just consumed; a parser error whose test looks only at the consumed token is not positioned at the cursor." +
-			" The parser's cursor points to freshly allocated tokens only.",
+			" The parser's cursor points to freshly allocated tokens only. A statement-context error (break / continue / return out of place) positioned at the cursor is raised before the cursor has moved past the keyword; the parser hands every sub-parser error on unchanged (no rewind-and-retry that reports a different token).",
 		notDecided: "that GetLineAndCol returns the right line / column / text for every byte offset is decided only as a shape oracle of its one-scan algorithm (R7: every byte offset is compared with the position, which is what the defect named in the property's why_tests_cant violated; R8: line counter, line start, column and quoted text are updated as the oracle says); a different algorithm is UNDECIDED. Which token a node's representative token is (ast.go Token methods) is not decided.",
 	})
 }
@@ -28,6 +29,9 @@ func runC12(c *Ctx) {
 	defer c12IllegalChar(c)
 	defer c12OffsetScan(c)
 	tokenStorageFresh(c, "R10")
+	defer c.shared("R12", "C11/R2", "the error reported is the first fault met: the parser hands every error of a sub-parser on unchanged — it does not discard it, rewind and report what a second attempt at the same text finds (a different token, possibly on another line)", func(o Obligation) bool {
+		return !strings.HasPrefix(o.Key, "(*lang.Evaluator)") && !strings.HasPrefix(o.Key, "cli.")
+	}, func(s *Ctx) { c11R2(s, "R2") })
 	defer c.shared("R11", "C13/R3", "line N of an error is line N of the program: the lexer scans the text it was given, unchanged (not a trimmed or normalised copy whose offsets differ)", keyHas("lexer-source-unmodified"), runC13)
 	defer c.shared("R9", "C01/R1", "every runtime error carries a position: the errors that leave the interpreter's entry points are SyntaxError / RuntimeError / JsonError values only — a raw error (an unwrapped `unknown variable`) has no line at all", keyHas("entry "), func(s *Ctx) { c01R1(s, scopeAgreement(s, "R2")) })
 	defer c12LineColArithmetic(c)
@@ -113,14 +117,44 @@ func runC12(c *Ctx) {
 	// R2 position provenance
 	c.note("R2 position-provenance: for every call of a funnel the position argument is derived (through field selections, Token() calls and +/-1) from a node parameter of the calling function, from Parser.current / a node's token, or from the lexer's cursor fields; it is never a constant or a zero Token{}.")
 	n := 0
+	// a private helper that hands one of its parameters to a funnel as the position (`fail(pos, msg)`)
+	// forwards the obligation to its own call sites
+	type posSite struct {
+		cs  ssa.CallInstruction
+		idx int
+	}
 	for fnl := range isFunnel {
+		var work []posSite
 		for _, cs := range p.CallSitesOf(fnl) {
+			work = append(work, posSite{cs, 1})
+		}
+		forwarded := map[*ssa.Function]bool{}
+		for len(work) > 0 {
+			cs, argIdx := work[0].cs, work[0].idx
+			work = work[1:]
 			fn := cs.Parent()
-			if !p.InLang(fn) {
+			if !p.InLang(fn) || argIdx >= len(cs.Common().Args) {
 				continue
 			}
+			arg := cs.Common().Args[argIdx]
+			if prm, isPrm := arg.(*ssa.Parameter); isPrm && !isFunnel[fn] && fn.Parent() == nil && !ast.IsExported(fn.Name()) && !forwarded[fn] {
+				k := -1
+				for i, q := range fn.Params {
+					if q == prm {
+						k = i
+					}
+				}
+				sites := p.CallSitesOf(fn)
+				if k >= 0 && len(sites) > 0 {
+					forwarded[fn] = true
+					for _, s2 := range sites {
+						work = append(work, posSite{s2, k})
+					}
+					c.ok("R2", "position-forwarded by "+shortName(fn), p.InstrPos(cs), fmt.Sprintf("the position is parameter %s of the helper: checked at its %d call sites", prm.Name(), len(sites)))
+					continue
+				}
+			}
 			n++
-			arg := cs.Common().Args[1]
 			r := p.Render(arg)
 			key := fmt.Sprintf("position-of %s call #%d in %s", shortName(fnl), n, shortName(fn))
 			okP := false
@@ -137,6 +171,32 @@ func runC12(c *Ctx) {
 				if cond := controllingCond(cs); cond != nil {
 					prev, cur := readsParserToken(cond)
 					c.check(!(prev && !cur), "R2", "tested-token-position in "+shortName(fn)+": "+p.RenderShort(cond), p.InstrPos(cs), "the error is positioned at the token its test looked at", "the test that leads to this error looks at the token already consumed (Parser.previous) but the error is positioned at Parser.current, the token after it: the line / column are those of the following token, not of the offending one")
+				}
+			}
+			if shortName(fnl) == "(*lang.Parser).error" && strings.Contains(r, "p.current.Pos") {
+				// a statement-context error (break outside a loop, return outside a function) is about the
+				// keyword: it is raised while the keyword is still the cursor token, i.e. before this function
+				// has moved the cursor
+				if cond := controllingCond(cs); cond != nil {
+					if flag := readsParserFlag(cond); flag != "" {
+						moved := ""
+						for _, call := range callsIn(fn) {
+							if call == cs || isFunnel[call.Common().StaticCallee()] {
+								continue
+							}
+							passes := false
+							for _, a := range call.Common().Args {
+								if pt, ok := a.Type().(*types.Pointer); ok && isLangNamed(pt.Elem(), "Parser") {
+									passes = true
+								}
+							}
+							if passes && (dominatesInstr(call, cs) || canReach(call, cs)) {
+								moved = p.InstrPos(call)
+								break
+							}
+						}
+						c.check(moved == "", "R2", "context-error-position in "+shortName(fn)+": "+flag, p.InstrPos(cs), "the context error is raised at the cursor before the cursor moves: the position is the keyword's", "the error guarded by Parser."+flag+" is positioned at Parser.current after the parser has already moved on ("+moved+"): the keyword it complains about is consumed, so the line / column are those of the token after it (possibly on a later line)")
+					}
 				}
 			}
 			switch shortName(fnl) {
@@ -379,6 +439,25 @@ func c12IllegalChar(c *Ctx) {
 	for _, call := range callsIn(errFn) {
 		if staticCalleeIs(call, "(*lang.Lexer).error") && call.Block() == target.Block() {
 			pos = p.RenderShort(call.Common().Args[1])
+		}
+	}
+	if pos == "" {
+		// or through a helper that hands its position parameter to the funnel (`l.fail(pos, msg)`)
+		for _, call := range callsIn(errFn) {
+			h := call.Common().StaticCallee()
+			if h == nil || call.Block() != target.Block() || !p.InLang(h) {
+				continue
+			}
+			for _, hc := range callsIn(h) {
+				if !staticCalleeIs(hc, "(*lang.Lexer).error") {
+					continue
+				}
+				for j, prm := range h.Params {
+					if hc.Common().Args[1] == ssa.Value(prm) && j < len(call.Common().Args) {
+						pos = p.RenderShort(call.Common().Args[j])
+					}
+				}
+			}
 		}
 	}
 	if pos == "" {
@@ -745,6 +824,41 @@ func readsParserToken(v ssa.Value) (prev, cur bool) {
 	}
 	walk(v, 0)
 	return
+}
+
+// readsParserFlag: the boolean context flag of the parser (inLoop, inFunction, ...) a condition reads,
+// "" when none. The statement-end flag is cursor state, not context.
+func readsParserFlag(v ssa.Value) string {
+	seen := map[ssa.Value]bool{}
+	out := ""
+	var walk func(v ssa.Value, d int)
+	walk = func(v ssa.Value, d int) {
+		if v == nil || seen[v] || d > 10 {
+			return
+		}
+		seen[v] = true
+		if fa, ok := v.(*ssa.FieldAddr); ok {
+			if sf, ok := fieldOfAddr(fa); ok && sf.Struct != nil && sf.Struct.Obj().Name() == "Parser" && sf.Name != "didEndStatement" {
+				if pt, ok := fa.Type().(*types.Pointer); ok && isBoolType(pt.Elem()) {
+					out = sf.Name
+				}
+			}
+		}
+		in, ok := v.(ssa.Instruction)
+		if !ok {
+			return
+		}
+		if _, isPhi := v.(*ssa.Phi); isPhi {
+			return
+		}
+		for _, op := range in.Operands(nil) {
+			if *op != nil {
+				walk(*op, d+1)
+			}
+		}
+	}
+	walk(v, 0)
+	return out
 }
 
 // tokenStorageFresh: a token keeps its storage. Parselets hold on to *Token pointers taken from the
